@@ -183,3 +183,24 @@ Theorem C10_seed_truncation_observation :
     exists r, In r known /\ ~ In (fst r) (emitted os).
 Proof. exact seed_truncation_witness. Qed.
 Print Assumptions C10_seed_truncation_observation.
+
+(* Configuration plumbing (Model/Config.v, transcribing ConfigBuilder, Config, Discv5::new / Discv5::start,
+   tied to the code by the `glue` correspondence run on real loopback sockets): the parameters the theorems
+   above take as given are the ones the application configured - the value set last through the builder,
+   or the default - at every component they are handed to. *)
+Require Discv5V.Generated.Params Discv5V.Model.Config Discv5V.Proofs.Config.
+Theorem C10_configured_query_peer_timeout_reaches_the_service : forall ops v, Discv5V.Model.Config.start_node ops = Some v ->
+  Discv5V.Model.Config.VN (Discv5V.Model.Config.c_query_peer_timeout (Discv5V.Model.Config.nv_built v)) = Discv5V.Model.Config.configured ops Discv5V.Model.Config.FQueryPeerTimeout /\
+  Discv5V.Model.Config.VN (Discv5V.Model.Config.c_query_peer_timeout (Discv5V.Model.Config.nv_service v)) = Discv5V.Model.Config.configured ops Discv5V.Model.Config.FQueryPeerTimeout /\
+  Discv5V.Model.Config.VN (Discv5V.Model.Config.c_query_peer_timeout (Discv5V.Model.Config.nv_handler v)) = Discv5V.Model.Config.configured ops Discv5V.Model.Config.FQueryPeerTimeout.
+Proof. exact Discv5V.Proofs.Config.effective_query_peer_timeout. Qed.
+Print Assumptions C10_configured_query_peer_timeout_reaches_the_service.
+Theorem C10_configured_query_parallelism_reaches_the_service : forall ops v, Discv5V.Model.Config.start_node ops = Some v ->
+  Discv5V.Model.Config.VN (Discv5V.Model.Config.c_query_parallelism (Discv5V.Model.Config.nv_built v)) = Discv5V.Model.Config.configured ops Discv5V.Model.Config.FQueryParallelism /\
+  Discv5V.Model.Config.VN (Discv5V.Model.Config.c_query_parallelism (Discv5V.Model.Config.nv_service v)) = Discv5V.Model.Config.configured ops Discv5V.Model.Config.FQueryParallelism /\
+  Discv5V.Model.Config.VN (Discv5V.Model.Config.c_query_parallelism (Discv5V.Model.Config.nv_handler v)) = Discv5V.Model.Config.configured ops Discv5V.Model.Config.FQueryParallelism.
+Proof. exact Discv5V.Proofs.Config.effective_query_parallelism. Qed.
+Print Assumptions C10_configured_query_parallelism_reaches_the_service.
+Theorem C10_configuration_example : exists v, Discv5V.Model.Config.start_node Discv5V.Proofs.Config.example_ops = Some v.
+Proof. destruct Discv5V.Proofs.Config.example_starts as [v [H _]]. exists v. exact H. Qed.
+Print Assumptions C10_configuration_example.
